@@ -152,15 +152,15 @@ def _extract_one(args):
                              (unit, r.stderr.decode()[-2000:]))
     # make the facts root-neutral
     text = _read(tmp).decode()
-    text = text.replace('"' + root.rstrip("/") + "/", '"')
-    text = text.replace('"' + gendir.rstrip("/") + "/", '"<gen>/')
+    text = text.replace(gendir.rstrip("/") + "/", "<gen>/")
+    text = text.replace(root.rstrip("/") + "/", "")
     with open(tmp, "w") as f:
         f.write(text)
     os.replace(tmp, out)
     return unit, out, False
 
 
-def extract(root, extra_flags=(), jobs=16, quiet=True):
+def extract(root, extra_flags=(), jobs=16, quiet=True, save_tree=True):
     """Return (facts_by_unit, info).  facts_by_unit: {unit: parsed JSON}."""
     root = os.path.abspath(root)
     units = unit_list(root)
@@ -203,6 +203,8 @@ def extract(root, extra_flags=(), jobs=16, quiet=True):
                 with open(path) as f:
                     facts[unit] = json.load(f)
         info["cache"] = "%d/%d units" % (hits, len(units))
+        if not save_tree:
+            return facts, info
         os.makedirs(CACHE, exist_ok=True)
         tmp = pk + ".%d.tmp" % os.getpid()
         with open(tmp, "wb") as f:
